@@ -4,6 +4,8 @@
 (*               and entries of its procedures in layout order                *)
 (*  kind "load": file = bytes handed to hexsim's loader; mem = the non-zero   *)
 (*               words <<address, value>> found in memory afterwards          *)
+(*  kind "tbload": file = bytes handed to hextb's load(); words = the memory  *)
+(*               words covering the file's payload afterwards                 *)
 (*  kind "gen" : no input; the verdict lists BinFormat!Files for the harness  *)
 EXTENDS BinFormat, Json, IOUtils, TLC
 CONSTANT MemWords
@@ -13,6 +15,11 @@ NonZero(m) == {<<i, m[i]>> : i \in {j \in DOMAIN m : m[j] # 0}}
 Verdict(r) ==
   IF r.kind = "emit" THEN
     [id |-> r.id, v |-> IF ~WellFormed(r.file, MemWords) THEN "not a well-formed file" ELSE Emitted(r.file, r.names, r.entries),
+     n |-> NWords(r.file)]
+  ELSE IF r.kind = "tbload" THEN
+    [id |-> r.id,
+     v |-> IF Len(r.file) < 4 THEN "skip"
+           ELSE IF r.words = [i \in 1..PayloadWords(r.file) |-> LoadedWhole(r.file)[i - 1]] THEN "" ELSE "memory after hextb's load differs from the file's contents",
      n |-> NWords(r.file)]
   ELSE
     [id |-> r.id,
